@@ -24,6 +24,10 @@ func init() {
 		"go.stable":     goStable,
 		"go.bigint":     goBigInt,
 		"go.magictrunc": goMagicTrunc,
+		"go.tight":      goTight,
+		"abi.dec":       exAbiDec,
+		"abi.enc":       exAbiEnc,
+		"go.abi.rt":     goAbiRT,
 	})})
 }
 
@@ -161,6 +165,17 @@ func genC03(g *h.G) {
 			g.Emit("go.magictrunc", fmt.Sprintf("%x", tag), fmt.Sprint(n))
 		}
 	}
+	// the hand codecs with their own MarshalTLB and a flag-dependent layout: the decoder must consume all the encoder wrote
+	for _, n := range []string{"tlb.McBlockExtra", "tlb.McStateExtraOther"} {
+		tt := tlbLookup(n)
+		for i := 0; i < g.Scale(12, 200); i++ {
+			gc.ModelOnly = true
+			v := reflect.New(tt.T).Elem()
+			gc.Gen(tt.D, v, "p")
+			g.Emit("go.tight", n, tlbx.Print(v))
+		}
+	}
+	genAbiBodies(g)
 	genTags(g)
 	genReal(g)
 }
@@ -201,6 +216,29 @@ func goMagicTrunc(a []string) string {
 		return "FAIL truncated-cell-passes-the-tag-check"
 	}
 	return "ok rejected"
+}
+
+// go.tight <GoType> <val>: what Marshal writes is consumed entirely by Unmarshal (no field written that the decoder
+// does not read: McBlockExtra's config outside a key block)
+func goTight(a []string) string {
+	tt := tlbLookup(a[0])
+	v, err := tlbx.Read(a[1], tt.T)
+	if err != nil {
+		return "bad-op"
+	}
+	c, err := marshalValue(v)
+	if err != nil {
+		return "ok enc-err"
+	}
+	p := reflect.New(tt.T)
+	c.ResetCounters()
+	if err := tlb.Unmarshal(c, p.Interface()); err != nil {
+		return "FAIL own-output-not-decodable"
+	}
+	if c.BitsAvailableForRead() != 0 || c.RefsAvailableForRead() != 0 {
+		return fmt.Sprintf("FAIL written-but-not-read bits=%d refs=%d", c.BitsAvailableForRead(), c.RefsAvailableForRead())
+	}
+	return "ok tight"
 }
 
 func genBigInt(g *h.G) {
